@@ -46,12 +46,58 @@ pub fn deviations(b: &[u8]) -> Vec<Dev> {
     }
     // FAT sectors not marked as such in the FAT
     for (k, &fs) in l.fat_sectors.iter().enumerate() {
+        if b.len() > (4 << 20) && k > 2 && k + 1 < l.fat_sectors.len() {
+            continue; // very large base: the first three and the last FAT sector only
+        }
         let cell_sector = l.fat_sectors[fs / per];
         push("unmarkedFatSector", k, &|img| wr32(img, (cell_sector + 1) * s + 4 * (fs % per), 0xffff_fffe));
     }
     // header: DIFAT chain "ended" by the free marker, wrong sector counts
     if rd32(b, 72) == 0 {
         push("difatEndsFree", 0, &|img| wr32(img, 68, 0xffff_ffff));
+    }
+    // files with DIFAT sectors (> 109 FAT sectors): the DIFAT-specific deviations
+    let n_difat = rd32(b, 72) as usize;
+    if n_difat > 0 && n_difat < 64 {
+        // the DIFAT chain and the complete list of FAT sectors
+        let mut difat_secs: Vec<usize> = Vec::new();
+        let mut all_fat: Vec<u32> = (0..109).map(|i| rd32(b, 76 + 4 * i)).collect();
+        let mut cur = rd32(b, 68) as usize;
+        while cur < l.nsec && difat_secs.len() < n_difat {
+            difat_secs.push(cur);
+            for i in 0..(per - 1) {
+                all_fat.push(rd32(b, (cur + 1) * s + 4 * i));
+            }
+            cur = rd32(b, (cur + 1) * s + s - 4) as usize;
+        }
+        let used = all_fat.iter().take_while(|v| **v != 0xffff_ffff).count();
+        let fat_cell = |id: usize| -> Option<usize> {
+            let fs = *all_fat.get(id / per)? as usize;
+            if fs < l.nsec { Some((fs + 1) * s + 4 * (id % per)) } else { None }
+        };
+        for (k, &d) in difat_secs.iter().enumerate() {
+            if let Some(off) = fat_cell(d) {
+                push("unmarkedDifatSector", k, &|img| wr32(img, off, 0xffff_fffe));
+            }
+        }
+        if let Some(&last) = difat_secs.last() {
+            // unused entries of the last DIFAT sector padded with zero instead of FREE
+            let first_unused = used - 109 - (difat_secs.len() - 1) * (per - 1);
+            if first_unused < per - 1 {
+                push("zeroPaddedDifat", last, &|img| {
+                    for i in first_unused..(per - 1) {
+                        wr32(img, (last + 1) * s + 4 * i, 0);
+                    }
+                });
+            }
+        }
+        push("wrongNumDifat", 1, &|img| { let v = rd32(img, 72); wr32(img, 72, v - 1) });
+    }
+    if rd32(b, 64) > 0 {
+        push("wrongNumMiniFat", 1, &|img| { let v = rd32(img, 64); wr32(img, 64, v - 1) });
+    }
+    if rd32(b, 44) > 1 {
+        push("wrongNumFat", 2, &|img| { let v = rd32(img, 44); wr32(img, 44, v - 1) });
     }
     push("wrongNumFat", 0, &|img| { let v = rd32(img, 44); wr32(img, 44, v + 1) });
     push("wrongNumFat", 1, &|img| wr32(img, 44, 0));
@@ -66,6 +112,9 @@ pub fn deviations(b: &[u8]) -> Vec<Dev> {
     let base = |i: usize| (l.dir_sectors[i / dper] + 1) * s + (i % dper) * 128;
     let typ = |i: usize| b[base(i) + 66];
     for i in 0..n {
+        if b.len() > (4 << 20) {
+            break;
+        }
         let o = base(i);
         let t = typ(i);
         if t == 0 {
